@@ -21,6 +21,7 @@ import (
 	"github.com/goatcms/goatcore/workers"
 
 	"verif/explore"
+	"verif/fsx"
 	"verif/fw"
 )
 
@@ -503,6 +504,7 @@ type witness struct {
 	Flat   map[string]string      `json:"flat,omitempty"`
 	Layout *layout                `json:"layout,omitempty"`
 	Sched  []int                  `json:"schedule,omitempty"`
+	Reload *reloadCase            `json:"reload_case,omitempty"`
 }
 
 var loadFocus = []string{"filesystem/fsloop", "workers/jobsync", "i18n/"}
@@ -745,6 +747,16 @@ func run(c *fw.Ctx) {
 	}
 	c.R.Distinct = c.R.Evaluations
 	c.Sample(map[string]interface{}{"json_document": `{"a":{"b":"\"\\é\/"},"é":"x"}`, "reference": "encoding/json with UseNumber"})
+	// reloads into a store that changed in between
+	if c.Mine(6000002) {
+		for _, rc := range reloadCases() {
+			c.R.Evaluations++
+			c.Count("reload_sequences", 1)
+			if f := runReload(rc); f != nil {
+				report(f, witness{Reload: &rc})
+			}
+		}
+	}
 	c.Sample(map[string]interface{}{"flat_map_written": map[string]string{"a.b": "\\\n\"", "b": "w"}})
 }
 
@@ -755,6 +767,8 @@ func replay(wj json.RawMessage) (*fw.Violation, error) {
 	}
 	var f *finding
 	switch {
+	case w.Reload != nil:
+		f = runReload(*w.Reload)
 	case w.Nested != nil:
 		// JSON round trip turns ints into float64: rebuild ints
 		var fix func(m map[string]interface{})
@@ -795,7 +809,93 @@ var _ = bytes.Contains
 
 func init() {
 	fw.Register(&fw.Check{ID: "C20", Level: "exploration",
-		Rule: "all nested maps over keys {a,b,é}, and over {'' (the empty string), a}, with depth<=3 and <=3 (quick) / <=4 (thorough) leaves (the flat key '' alone is refused by the rebuild functions with an explicit error, which is accepted), plus deep maps (spine of depth 1..12 / 1..20 with 1-3 sibling leaves at the bottom, with and without a side leaf per level) (flatten/rebuild both ways, string variant); all JSON documents of 4 nested-object shapes whose string leaf ranges over every string of <=2 (quick) / <=3 (thorough) symbols from {a, quote, backslash, slash, newline, tab, U+0001, é, U+1F600} in every JSON spelling (incl. surrogate pairs) (raw and escaped), plus every number literal of <=5 (thorough 6) characters over {0,1,-,+,.,e,E} that the JSON grammar allows, and true/null/array leaves, compared with encoding/json (UseNumber); all flat maps from 8 prefix-free key sets x every value string of <=2/3 symbols from {a, quote, backslash, slash, newline, tab, 0x01, é, '<', U+2028, U+1F600, U+10000, U+FFFF, 0x7f, comma, colon, braces, bracket, blank} written compact and formatted (valid for encoding/json, same map, round trip); plus EVERY prefix-free set of <=3/<=4 keys from all 30 paths of depth <=2 over the segments {s, s1, s10, s-, é} (names that are prefixes of one another or sort around the separator); translation loader on 15 directory layouts (1-4 files, one of them with more files in one directory than the walker's queues hold - queue capacity scaled down to 1; 1-40 keys per file; sub-directories as the loaded base in three spellings; escaped values; look-alike file names that must not be loaded) under every schedule with <= bound preemptions, with the race oracle on the loader's and the store's multi-word variables (incl. variables captured by the per-file callback). distinct = inputs/schedules",
+		Rule: "all nested maps over keys {a,b,é}, and over {'' (the empty string), a}, with depth<=3 and <=3 (quick) / <=4 (thorough) leaves (the flat key '' alone is refused by the rebuild functions with an explicit error, which is accepted), plus deep maps (spine of depth 1..12 / 1..20 with 1-3 sibling leaves at the bottom, with and without a side leaf per level) (flatten/rebuild both ways, string variant); all JSON documents of 4 nested-object shapes whose string leaf ranges over every string of <=2 (quick) / <=3 (thorough) symbols from {a, quote, backslash, slash, newline, tab, U+0001, é, U+1F600} in every JSON spelling (incl. surrogate pairs) (raw and escaped), plus every number literal of <=5 (thorough 6) characters over {0,1,-,+,.,e,E} that the JSON grammar allows, and true/null/array leaves, compared with encoding/json (UseNumber); all flat maps from 8 prefix-free key sets x every value string of <=2/3 symbols from {a, quote, backslash, slash, newline, tab, 0x01, é, '<', U+2028, U+1F600, U+10000, U+FFFF, 0x7f, comma, colon, braces, bracket, blank} written compact and formatted (valid for encoding/json, same map, round trip); plus EVERY prefix-free set of <=3/<=4 keys from all 30 paths of depth <=2 over the segments {s, s1, s10, s-, é} (names that are prefixes of one another or sort around the separator); translation loader on 15 directory layouts (1-4 files, one of them with more files in one directory than the walker's queues hold - queue capacity scaled down to 1; 1-40 keys per file; sub-directories as the loaded base in three spellings; escaped values; look-alike file names that must not be loaded) under every schedule with <= bound preemptions, plus 5 sequences of loads into ONE store (base, theme with overlapping keys, direct Set in between, the same unchanged directory twice): after the last Load every key of its files translates to the file's value; with the race oracle on the loader's and the store's multi-word variables (incl. variables captured by the per-file callback). distinct = inputs/schedules",
 		Run:  run, Replay: replay,
 		Assumptions: []string{"encoding/json is the reference JSON decoder", "loader values are %-free (Translate is a format API)", "2-3 preemptions, MaxJob 1-2 for the loader"}})
+}
+
+// ---- reload: a directory loaded again into a store that changed in between ----
+
+// reloadCase: Load(first...) in order into ONE store; after the LAST Load has returned nil, every key of
+// every file of the directory loaded last translates to that file's value - whatever was loaded or set
+// before (also: the very same directory, unchanged on disk, loaded a second time).
+type reloadCase struct {
+	Name  string   `json:"reload"`
+	Loads []string `json:"loads"` // base directories, in order ("set:<k>=<v>" = a direct Set in between)
+}
+
+var reloadFiles = map[string]string{
+	"base/en.json":     `{"title":"Base title","menu":{"home":"Home","exit":"Exit"}}`,
+	"base/sub/pl.json": `{"pl":{"menu":{"exit":"Wyjscie"}}}`,
+	"theme/en.json":    `{"title":"Theme title","menu":{"home":"Theme home"}}`,
+	"theme/extra.json": `{"only":{"theme":"T"}}`,
+}
+
+func reloadCases() []reloadCase {
+	return []reloadCase{
+		{"base-theme-base", []string{"base/", "theme/", "base/"}},
+		{"theme-base-theme", []string{"theme/", "base/", "theme/"}},
+		{"base-set-base", []string{"base/", "set:title=Changed by hand", "set:pl.menu.exit=X", "base/"}},
+		{"base-base", []string{"base/", "base/"}},
+		{"base-theme-base-theme", []string{"base/", "theme/", "base/", "theme/"}},
+	}
+}
+
+func runReload(rc reloadCase) (f *finding) {
+	var detail string
+	res := fsx.RunSeq(func() {
+		workers.MaxJob = 2
+		fsloop.ChanSize = 1000
+		fs, _ := memfs.NewFilespace()
+		var ps []string
+		for p := range reloadFiles {
+			ps = append(ps, p)
+		}
+		sort.Strings(ps)
+		for _, p := range ps {
+			fs.WriteFile(p, []byte(reloadFiles[p]), 0644)
+		}
+		i18 := i18mem.NewI18N()
+		last := ""
+		for _, l := range rc.Loads {
+			if strings.HasPrefix(l, "set:") {
+				kv := strings.SplitN(strings.TrimPrefix(l, "set:"), "=", 2)
+				i18.Set(map[string]string{kv[0]: kv[1]})
+				continue
+			}
+			if err := fsi18loader.Load(fs, l, i18, nil); err != nil {
+				detail = fmt.Sprintf("Load(%q) failed: %v", l, err)
+				return
+			}
+			last = l
+		}
+		for _, p := range ps {
+			if !strings.HasPrefix(p, last) {
+				continue
+			}
+			want, _ := refFlatten(reloadFiles[p])
+			var ks []string
+			for k := range want {
+				ks = append(ks, k)
+			}
+			sort.Strings(ks)
+			for _, k := range ks {
+				got, err := i18.Translate(k)
+				if err != nil || got != want[k] {
+					detail = fmt.Sprintf("sequence %v on one store: after the last Load(%q) returned nil, key %q of %s translates to %q (err %v), the file says %q", rc.Loads, last, k, p, got, err, want[k])
+					return
+				}
+			}
+		}
+	})
+	if detail == "" && (res.Deadlock || res.Horizon) {
+		detail = fmt.Sprintf("sequence %v: blocked: %v", rc.Loads, res.Blocked)
+	}
+	if detail == "" && len(res.Panics) > 0 {
+		detail = "panic: " + res.Panics[0].Value
+	}
+	if detail == "" {
+		return nil
+	}
+	return &finding{"loader-reload-stale", "loading a directory of translation files makes every key of every file translatable to its value", detail}
 }
